@@ -255,3 +255,5 @@ PROPS['C14'] = dict(lean=['Mkdb.Props.C14'], facts=STORE_FACTS, runs=[dict(cmd='
 
 PROPS['C03'] = dict(lean=['Mkdb.Props.C02'], facts=STORE_FACTS, runs=[dict(cmd='db', proto='db', args=['c03'])],
     sig_filter=r'db:(image-.*|panic:.*|hang:.*)', claim='pending', note='pending', rule='')
+PROPS['C04'] = dict(lean=['Mkdb.Props.C02'], facts=STORE_FACTS, runs=[dict(cmd='db', proto='db', args=['c04'], timeout=3000)],
+    sig_filter=r'db:(fimage-.*)', claim='pending', note='pending', rule='')
